@@ -196,6 +196,82 @@ def main(argv):
                         pass
                     except BaseException as e:  # noqa
                         fail("parser#unbalanced_parentheses_rejected", dict(std=std, line=v, source=src), "raised %s instead of FortranSyntaxError" % type(e).__name__)
+        # structural deletions: removing the opening or the closing line of an inner construct (or the terminating
+        # statement of a labelled DO) leaves an ill-nested program, which must be rejected
+        import re as _re2
+        OPEN = _re2.compile(r"^\s*(\d+\s+)?(\w+\s*:\s*)?(if\s*\(.*\)\s*then|do\b(?!uble)|select\s+(case|type)|where\s*\(.*\)\s*$|forall\s*\(.*\)\s*$|associate\s*\(|block\s*$|critical\s*$|"
+                            r"type\s*(,.*)?(::)?\s*\w+\s*$|interface\b|subroutine\b|function\b)", _re2.I)
+        CLOSE = _re2.compile(r"^\s*(\d+\s+)?end\s*(if|do|select|where|forall|associate|block|critical|type|interface|subroutine|function)\b", _re2.I)
+        nested = dict(CATALOGUE)
+        nested.update(F2008_EXTRA)
+        nested["constructs"] = ("module c\n  interface g\n    module procedure s\n  end interface g\ncontains\n  subroutine s(a, n)\n    integer :: n, i\n    real :: a(n)\n"
+                                "    outer: do i = 1, n\n      if (a(i) > 0) then\n        where (a > 1)\n          a = 1\n        end where\n      else\n        forall (i = 1:n)\n          a(i) = 0\n"
+                                "        end forall\n      end if\n    end do outer\n    associate (b => a(1))\n      b = 2\n    end associate\n    select case (n)\n    case (1)\n      a = 3\n    end select\n"
+                                "    do 30 i = 1, n\n      a(i) = 4\n30  continue\n    do 40 i = 1, n\n40  a(i) = 5\n  end subroutine s\nend module c\n")
+        for name, text in nested.items():
+            lines = text.splitlines()
+            std = "f2008" if name in F2008_EXTRA else "f2003"
+            try:
+                parse(text, std)
+            except BaseException:  # noqa
+                continue
+            labels = {m.group(1) for l in lines for m in [_re2.match(r"^\s*do\s+(\d+)\b", l, _re2.I)] if m}
+            for li, line in enumerate(lines):
+                m_lab = _re2.match(r"^\s*(\d+)\s", line)
+                is_term = bool(m_lab and m_lab.group(1) in labels)
+                if not (OPEN.match(line) or CLOSE.match(line) or is_term):
+                    continue
+                if _re2.match(r"^\s*do\s+\d+\b", line, _re2.I):
+                    continue            # a labelled DO statement: without it its terminator is an ordinary labelled statement
+                if li == 0 or li == len(lines) - 1:
+                    continue            # the outermost unit: removing a PROGRAM statement can leave a valid program
+                if _re2.match(r"^\s*(subroutine|function)\b", line, _re2.I) and not any(l.strip().lower() == "contains" for l in lines[:li]) \
+                        and not any(_re2.match(r"^\s*interface\b", l, _re2.I) for l in lines[:li]):
+                    continue            # first line of a further top-level unit
+                if _re2.match(r"^\s*end\s*(subroutine|function)\b", line, _re2.I) and li + 1 < len(lines) \
+                        and _re2.match(r"^\s*(subroutine|function|program|module)\b", lines[li + 1], _re2.I):
+                    continue            # END of a top-level unit followed by another unit
+                src = "\n".join(lines[:li] + lines[li + 1:]) + "\n"
+                cases += 1
+                try:
+                    t = parse(src, std)
+                    fail("parser#ill_nested_rejected", dict(program=name, std=std, deleted_line=line.strip(), source=src), dict(accepted_as=str(t)[:300]))
+                except FortranSyntaxError:
+                    pass
+                except SystemExit:
+                    fail("parser#ill_nested_rejected", dict(program=name, std=std, deleted_line=line.strip(), exception="SystemExit", source=src), "process exit requested")
+                except BaseException as e:  # noqa
+                    fail("parser#ill_nested_rejected", dict(program=name, std=std, deleted_line=line.strip(), source=src), "raised %s instead of FortranSyntaxError" % type(e).__name__)
+            # surplus openers / closers at every boundary inside the outermost unit
+            surplus = ["if (n > 0) then", "do while (n > 0)", "q: do", "associate (q => n)", "select case (n)", "where (a > 0)", "forall (i = 1:n)",
+                       "end if", "end do", "end associate", "end select", "end where", "end forall"]
+            for li in range(1, len(lines)):
+                if lines[li - 1].rstrip().endswith("&"):
+                    continue
+                for k, extra in enumerate(surplus):
+                    if tier != "thorough" and (li + k) % 4:
+                        continue
+                    src = "\n".join(lines[:li] + ["  " + extra] + lines[li:]) + "\n"
+                    cases += 1
+                    # is the insertion point inside the range of a labelled DO (between the DO statement and its terminator)?
+                    open_labels = []
+                    for l in lines[:li]:
+                        m1 = _re2.match(r"^\s*do\s+(\d+)\b", l, _re2.I)
+                        m2 = _re2.match(r"^\s*(\d+)\s", l)
+                        if m1:
+                            open_labels.append(m1.group(1))
+                        elif m2:
+                            open_labels = [x for x in open_labels if x != m2.group(1)]
+                    try:
+                        t = parse(src, std)
+                        fail("parser#ill_nested_rejected", dict(program=name, std=std, inserted_line=extra, before_line=lines[li].strip(),
+                                                                inside_labelled_do=bool(open_labels), source=src), dict(accepted_as=str(t)[:300]))
+                    except FortranSyntaxError:
+                        pass
+                    except SystemExit:
+                        fail("parser#ill_nested_rejected", dict(program=name, std=std, inserted_line=extra, exception="SystemExit", source=src), "process exit requested")
+                    except BaseException as e:  # noqa
+                        fail("parser#ill_nested_rejected", dict(program=name, std=std, inserted_line=extra, source=src), "raised %s instead of FortranSyntaxError" % type(e).__name__)
     if "C07" in only:
         for name in ("plain", "module", "select_where", "io_format"):
             lines = CATALOGUE[name].splitlines()
